@@ -160,3 +160,20 @@ Lemma C01_D43_witness :
   = ([KStart (B "tdtitle=" ++ [34] ++ B "x") [B "onmouseover"] false; KEnd (B "td")], SData) /\
   placement_ok (B "<tdtitle=" ++ [34] ++ B "zq" ++ [34] ++ B ">k</td>") [(10, 2)]%nat = false.
 Proof. vm_compute. repeat split; reflexivity. Qed.
+
+(* ------------------------------------------------------------------ D44: the special end tag inside the start tag
+   <script x=[dq]y[dq]</script> : the engine is back in the text context (it took the end tag opener for
+   the end of the script element), the tokenizer has just finished the START tag of a script element
+   with the attributes x, less-than sign, script and is in the script data state: an action that follows
+   writes script source. *)
+Definition d44_text : bytes := B "<script x=" ++ [34] ++ B "y" ++ [34] ++ B "</script>".
+
+Lemma C01_D44_witness :
+  end_state d44_text = Some StText /\
+  r_tokens (html_tokenize SData d44_text)
+  = [StartTag (B "script") [(B "x", B "y"); (B "<", []); (B "script", [])] false] /\
+  tok_final d44_text = SScriptData /\
+  finding_D44 d44_text = true /\
+  finding_D44 (B "<script x=" ++ [34] ++ B "y" ++ [34] ++ B "></script>") = false /\
+  placement_ok (d44_text ++ B "alert(1)//") [(length d44_text, 10%nat)] = false.
+Proof. vm_compute. repeat split; reflexivity. Qed.
